@@ -141,7 +141,7 @@ PROPS = {
         title="Variable-time fast paths agree with the constant-time reference",
         verus=[("recode_naf", None, "quick")],
         kani=[],
-        cases=["*_recode_u128_naf", "p256_recode_u129_naf", "*_recode_scalar_naf", "ed448_recode_halfwidth_naf", "*_vartime*"],
+        cases=["*_recode_u128_naf", "p256_recode_u129_naf", "*_recode_scalar_naf", "ed448_recode_halfwidth_naf", "*_mul_add_mulgen_vartime", "*_mul128_add_mulgen_vartime", "*_verify_helper_vartime"],
         level_text="The 5-bit wNAF recoding of 128-bit integers (jq255e, jq255s, ed25519, secp256k1 copies) is proved by Verus for every u128 by loop induction: digits odd in -15..15 or zero and sum sd[i]*2^i == n (the last ten iterations closed by exhaustive evaluation of the 528 possible residual values). The interleaved multi-scalar loops and verify helpers are stand-in only.",
         level_note="Interleaved loops (set_mul_add_mulgen_vartime etc.) and verify_helper_vartime are not under contract; scalar-fed NAF recoders stand-in only.",
         not_reached=["set_mul_add_mulgen_vartime / set_mul128_add_mulgen_vartime / set_mul64mu_add_mulgen_vartime", "verify_helper_vartime", "recode_scalar_NAF, recode_u129_NAF, recode_halfwidth_NAF (stand-in only)"],
@@ -157,9 +157,13 @@ PROPS = {
     ),
     "C12": dict(
         title="Field division, inversion, square root and Legendre symbol are correct",
-        verus=[], kani=[],
+        verus=[("modint_legendre_iters", 100, "quick")], kani=[],
         cases=_f(["div", "batch_invert", "legendre", "sqrt", "sqrt_ext", "trace", "halftrace", "qsolve", "lin"]),
-        level="exploration",
+        level_text="ModInt256::legendre and GF255::legendre: a structural contract is proved by Verus on the real code for every input - the binary-GCD performs at least 2*len - 2 iterations (510 for the 256-bit ModInt256 moduli, 508 for the 255-bit GF255 moduli: the number the algorithm's convergence bound asks for), every non-wrapping operation is in range (shift counts, the subtraction on the leading-zero count), and the result is one of 0, 1, -1. The symbol's value itself, division, inversion, square roots and the binary-field solvers: stand-in only (executable postconditions against Euler's criterion / defining equations, with operands that include the slowest-converging binary-GCD patterns c*2^k).",
+        level_note="The convergence theorem of the optimised binary GCD (2*len - 2 iterations suffice) is assumed, not proved; the contract states that the code performs that many. lindiv31abs, lzcnt, iszero, set_normalized are declared (trivial contracts: only their termination and types matter here).",
+        assumptions=["binary GCD convergence bound (Pornin, eprint 2020/972): at most 2*len - 2 iterations for an odd modulus of len bits: assumed",
+                     "lindiv31abs / lzcnt (r <= 64, r == 64 iff x == 0) / iszero / set_normalized: declared"],
+        not_reached=["the value of the Legendre symbol, set_div / invert / batch_invert, sqrt, binary-field trace / half-trace: stand-in only"],
     ),
     "C13": dict(
         title="Truncated-signature verification is sound and complete",
@@ -219,7 +223,7 @@ PROPS = {
         verus=[("recode_naf", None, "quick"), ("p256_decode", None, "quick"), ("ed25519_verify", None, "quick")],
         kani=[("lms::sha256_m32::k_verify_total", "quick", "full-domain")] + _gf255_k(["k_decode_ct_badlen"]),
         cases=["*_decode_strict", "*_decode_ct", "*_decode_opt", "*_decode_reduce", "*_verify", "ecdsa_verify", "*_ecdh", "lms_sig_corrupt", "modint_split", "gfgen_split",
-               "hash_script", "x25519_ladder", "x448_ladder", "frost_*_decode_total", "p256_prepare_truncate_short", "ed25519_trunc", "p256_trunc"],
+               "hash_script", "x25519_ladder", "x448_ladder", "frost_*_decode_total", "frost_*_corrupt", "*_verify_helper_vartime", "p256_prepare_truncate_short", "ed25519_trunc", "p256_trunc"],
         level_text="Absence of panics / out-of-bounds is part of every Verus obligation set and every Kani harness listed (index, slice, overflow and unwrap checks are built-in obligations): GF255 strict decoding for every length, P-256 point decoding for every string of every length, Ed25519 verify_raw/ctx/ph for every signature string (contexts up to 255 bytes: the documented precondition of the assert! in verify_inner), LMS verify for every string, wNAF recoding. All other entry points: the stand-in sweep catches panics (catch_unwind) on boundary-biased inputs of all lengths.",
         level_note="Most decode/verify entry points are not under contract; status-word exactness is proved only for GF255 (C20).",
     ),
